@@ -109,7 +109,18 @@ func GenCase(prop string, regs []*Registration, r *Rng) *Case {
 		names[i] = ms[i].Name
 	}
 	if reg.Style == "testify" {
-		genTestifyCase(prop, reg, cs, ms, r)
+		for try := 0; try < 20; try++ {
+			genTestifyCase(prop, reg, cs, ms, r)
+			if len(cs.Tasks) > 0 {
+				return cs
+			}
+			reg = pool[r.Intn(len(pool))]
+			if reg.Style != "testify" {
+				return GenCase(prop, regs, r)
+			}
+			cs.Key = reg.Key()
+			ms = ifaceMethods(reg.IfaceType)
+		}
 		return cs
 	}
 	resets := reg.Opts["with-resets"]
